@@ -1,5 +1,6 @@
 import Rcgen.Theorems.C09
 import Rcgen.Model.Sign
+import Rcgen.Proofs.Ctor
 /-
   C10 — the public API never panics (generation part; the parse entry points are third-party
   decoders followed by glue, see Theorems/C17 and the fuzz stream of the check).
@@ -299,5 +300,40 @@ def badParams : CertParams :=
 
 example : paramsOk badParams = true := by decide
 example : certInvalid badParams (selfIssuer badParams ⟨.ed25519, []⟩) = some .time := by decide
+
+/-! ### the constructors around the parameter types (Model/Ctor.lean)
+
+    `CidrSubnet::from_str`, `CertificateParams::new`, `SerialNumber::from` return a value or an
+    error for every text (their model has no panic outcome, and the tie compares the outcome of
+    the real function under `catch_unwind` on every offered text); the two constructors with an
+    announced panic reach it exactly on the announced inputs. -/
+
+/-- `new_acme_identifier` panics exactly on a digest that is not 32 octets long -/
+theorem acme_panics_iff_wrong_length (d : Bytes) : (acmeIdentifier d).isNone ↔ d.length ≠ 32 := by
+  unfold acmeIdentifier
+  split <;> simp_all
+
+/-- `date_time_ymd` panics exactly on an impossible calendar date -/
+theorem ymd_panics_iff_impossible_date (y : Int) (m d : Nat) :
+    (dateTimeYmd y m d).isNone ↔
+      ¬ (-9999 ≤ y ∧ y ≤ 9999 ∧ 1 ≤ m ∧ m ≤ 12 ∧ 1 ≤ d ∧ d ≤ daysInMonth y m) := by
+  unfold dateTimeYmd
+  split <;> simp_all
+
+/-- `CertificateParams::new` never fails in another way than `InvalidAsn1String`, and
+    `CidrSubnet::from_str` has no failure but its `Err(())` -/
+theorem params_new_only_error (crypto : Bool) (names : List Bytes) :
+    (∃ p, paramsNew crypto names = .ok p) ∨ paramsNew crypto names = .error .invalidAsn1String := by
+  cases h : paramsNew crypto names with
+  | ok p => exact Or.inl ⟨p, rfl⟩
+  | error e =>
+    right
+    unfold paramsNew at h
+    cases hc : classifySans names with
+    | ok s => simp [hc] at h
+    | error e' =>
+      simp only [hc, Except.error.injEq] at h
+      subst h
+      rw [(classifySans_error names e' hc).1]
 
 end Rcgen.Theorems.C10
